@@ -28,6 +28,7 @@ from .. import workload as W
 from ..verdict import Result
 
 LEVEL = "exploration"
+AWKWARD_REGISTRATION_MIX = True
 RULE = ("every catalogued operation x sampled coordinate signatures x array variants of the cross-backend sweep, plus "
         "object operands, operators, numpy functions, reductions, conversions with keywords, aliasing a.op(a), read-only "
         "arrays, pickle/copy/view; operands snapshotted bit-for-bit before and after each call; a cell is (operation or "
